@@ -37,7 +37,7 @@ func (p *c19) ID() string { return "C19" }
 var c19BigHash = func() string {
 	var b strings.Builder
 	b.WriteString("h = {")
-	for i := 0; i < 45; i++ {
+	for i := 0; i < 35; i++ {
 		if i > 0 {
 			b.WriteString(", ")
 		}
